@@ -75,6 +75,9 @@ enum Op {
     Reopen,
     /// delete the file of the tracked item (k, i, j) behind the open cache's back
     DeleteFile(usize, usize, usize),
+    /// flip one bit in the data region of the file of item (k, i, j) (length unchanged), then re-open:
+    /// the item is tracked but unverified and its CRC no longer matches
+    DamageAndReopen(usize, usize, usize),
 }
 impl Op {
     fn to_json(&self) -> Value {
@@ -83,6 +86,7 @@ impl Op {
             Op::Get(k, i, j) => json!({"get": [k, i, j]}),
             Op::Reopen => json!("reopen"),
             Op::DeleteFile(k, i, j) => json!({"delete_file": [k, i, j]}),
+            Op::DamageAndReopen(k, i, j) => json!({"damage_and_reopen": [k, i, j]}),
         }
     }
     fn from_json(v: &Value) -> Op {
@@ -97,6 +101,10 @@ impl Op {
         if v["get"].is_array() {
             let (k, i, j) = t(&v["get"]);
             return Op::Get(k, i, j);
+        }
+        if v["damage_and_reopen"].is_array() {
+            let (k, i, j) = t(&v["damage_and_reopen"]);
+            return Op::DamageAndReopen(k, i, j);
         }
         let (k, i, j) = t(&v["delete_file"]);
         Op::DeleteFile(k, i, j)
@@ -311,6 +319,7 @@ fn run_seq(dir: &Path, cap: u64, hist: &[Step]) -> SeqOutcome {
                 Res::PutOk
             },
             Op::Reopen => Res::Reopened,
+            Op::DamageAndReopen(..) => Res::Reopened, // only used in the pre-history of concurrent harnesses
         });
         if let Op::Reopen = op {
             drop(cache);
@@ -567,6 +576,8 @@ fn harnesses(tier: Tier) -> Vec<Harness> {
         h("put into key dir being emptied (cap 1)", 2, vec![Put(0, 0, 1)], vec![vec![Put(1, 0, 3)], vec![Put(0, 1, 2)]]),
         h("put,get||put,get identical", 0, vec![], vec![vec![Put(0, 0, 2), Get(0, 0, 2)], vec![Put(0, 0, 2), Get(0, 1, 2)]]),
         h("get||get unverified after reopen", 0, vec![Put(0, 0, 3), Reopen], vec![vec![Get(0, 0, 3)], vec![Get(0, 1, 2)]]),
+        h("get||get of an item damaged while closed", 0, vec![Put(0, 0, 3), DamageAndReopen(0, 0, 3)], vec![vec![Get(0, 0, 3)], vec![Get(0, 2, 3)]]),
+        h("get||put over an item damaged while closed", 0, vec![Put(0, 0, 3), DamageAndReopen(0, 0, 3)], vec![vec![Get(0, 2, 3)], vec![Put(0, 2, 3)]]),
     ];
     if tier == Tier::Thorough {
         v.extend(vec![
@@ -582,6 +593,8 @@ fn harnesses(tier: Tier) -> Vec<Harness> {
             h("evicting put||evicting put (cap 1)", 2, vec![Put(0, 0, 1)], vec![vec![Put(1, 0, 2)], vec![Put(1, 1, 3)]]),
             h("get||get||subsuming put", 0, vec![Put(0, 1, 2)], vec![vec![Get(0, 1, 2)], vec![Get(0, 1, 2)], vec![Put(0, 0, 3)]]),
             h("put,put||put identical then nested", 0, vec![], vec![vec![Put(0, 0, 2), Put(0, 0, 3)], vec![Put(0, 0, 2)]]),
+            h("get||get||get of an item damaged while closed", 0, vec![Put(0, 0, 3), DamageAndReopen(0, 0, 3)], vec![vec![Get(0, 0, 3)], vec![Get(0, 2, 3)], vec![Get(0, 1, 3)]]),
+            h("get||get of a damaged item with an intact fallback", 0, vec![Put(0, 2, 3), Put(0, 0, 2), Put(0, 1, 3), DamageAndReopen(0, 1, 3)], vec![vec![Get(0, 2, 3)], vec![Get(0, 2, 3)]]),
         ]);
     }
     v
@@ -614,6 +627,24 @@ fn conc_body(h: Harness, scratch: PathBuf, slot: Arc<Mutex<Option<ConcObs>>>) {
             Op::Reopen => {
                 drop(cache);
                 cache = open(&dir, cap).expect("reopen in pre-history");
+            },
+            Op::DamageAndReopen(k, i, j) => {
+                drop(cache);
+                {
+                    let _g = HookGuard::enter();
+                    for (p, _) in cache_files(&dir) {
+                        let name = p.rsplit('/').next().unwrap_or("");
+                        if let Ok(buf) = B64.decode(name) {
+                            if buf.len() == 20 && u32::from_le_bytes(buf[0..4].try_into().unwrap()) == *i as u32 && u32::from_le_bytes(buf[4..8].try_into().unwrap()) == *j as u32 && p.contains(&key_dir_name(&key(*k))) {
+                                let mut b = std::fs::read(dir.join(&p)).unwrap();
+                                let last = b.len() - 1;
+                                b[last] ^= 0x10;
+                                std::fs::write(dir.join(&p), b).unwrap();
+                            }
+                        }
+                    }
+                }
+                cache = open(&dir, cap).expect("reopen after damage in pre-history");
             },
             _ => {},
         }
